@@ -334,6 +334,14 @@ pub fn gen_c03(tier: &str, seed: u64) -> Vec<Vec<String>> {
                 let h = hex(&line_for(t, i, len));
                 if recursive && i + 1 < nl && r.chance(1, 3) { format!("R{h}") } else { h }
             }).collect();
+            // now and then a record whose whole text is one letter — among them the letters the
+            // asynchronous writers use as in-band control messages (what tells a record from them is
+            // its line ending)
+            let mut ls = ls;
+            if t < 3 && r.chance(1, 3) {
+                let pos = r.below(ls.len() as u64 + 1) as usize;
+                ls.insert(pos, hex(&[[b'F', b'S', b'A'][t], b'\n']));
+            }
             c.push(format!("THREAD {t} {}", ls.join(" ")));
         }
         if k % 3 == 2 {
